@@ -278,6 +278,11 @@ def _roots(op):
     return out
 
 
+def _sub_kwargs(spec, op):
+    from .workload import effective_kwargs
+    return effective_kwargs(spec, "Subscription", _root_field(op))
+
+
 def _root_field(op):
     s0 = op.sel[0]
     if s0.kind == "field":
@@ -475,10 +480,10 @@ def run_case(draws, prop, tier="quick"):
             V.append(Violation(P, "event_result", ("sub-resolver-calls",),
                                "subscription resolver ran %d times"
                                % ctx.sub_calls))
-        elif ctx.sub_kwargs != _root_field(plan.op).kwargs:
+        elif ctx.sub_kwargs != _sub_kwargs(spec, plan.op):
             V.append(Violation(P, "event_result", ("sub-args",),
                                "%r != %r" % (ctx.sub_kwargs,
-                                             _root_field(plan.op).kwargs)))
+                                             _sub_kwargs(spec, plan.op))))
         if ctx.events_seen != list(range(plan.n)):
             V.append(Violation(P, "event_order", ("processing-order",),
                                "events processed %r" % (ctx.events_seen,)))
